@@ -17,7 +17,7 @@ def kvOf (ws : List String) (k : String) : String :=
 def c15step (_ : Unit) (op : String) (impl : String) : Unit × String :=
   let ws := op.splitOn " "
   let kind := ws.headD ""
-  if kind != "run" && kind != "probe-recycle" && kind != "probe-persist-close" then ((), "bad-op" ++ sep ++ "na") else
+  if kind != "run" && kind != "probe-recycle" && kind != "probe-persist-close" && kind != "probe-pause-close" then ((), "bad-op" ++ sep ++ "na") else
   let dir := kvOf ws "dir"
   let mode := kvOf ws "mode"
   let expected := if dir == "mem" then "ok closed mem-noreopen" else "ok closed reopened acked_present"
@@ -25,6 +25,7 @@ def c15step (_ : Unit) (op : String) (impl : String) : Unit × String :=
     if impl == expected then "ok"
     else if impl.startsWith "race " then "bad:data-race"
     else if impl.startsWith "close-timeout" then "bad:close-timeout"
+    else if impl.startsWith "close-spin" then "bad:close-case-does-not-leave-loop"
     else if impl.startsWith "lost " then "bad:acknowledged-batch-lost"
     else if impl.startsWith "crash" || impl.startsWith "panic" || impl.startsWith "child-timeout" then "bad:crash"
     else if impl.startsWith "no-race-binary" || impl.startsWith "probe-inadequate" then "na"
